@@ -165,7 +165,7 @@ func checkC17(c *an.Ctx) {
 			if fn == load {
 				// reset written inline: it must come before anything is loaded
 				atStart = true
-				names := []string{"(*internal/config.Loader).load", "(*internal/config.Loader).LoadGlobalConfig"}
+				names := []string{"(internal/config.Loader).load", "(internal/config.Loader).LoadGlobalConfig"}
 				if glob != nil {
 					names = append(names, an.Short(glob))
 				}
